@@ -139,4 +139,60 @@ theorem StateOk.serSim {d : Dom} {v : View} {st : State} {p : Id} {pre post : Li
   · exact simList_append _ _ _ _ (simList_append _ _ _ _ (simList_refl hR preT) s3)
       (simList_refl hR postT)
 
+mutual
+theorem Tree.sim.symm (hR : ∀ x y, R x y → R y x) : ∀ (a b : Tree), Tree.sim R a b → Tree.sim R b a
+  | .elem _ _ k1, .elem _ _ k2, h => by
+    simp only [Tree.sim] at h ⊢
+    exact ⟨h.1.symm, hR _ _ h.2.1, Tree.simList.symm hR k1 k2 h.2.2⟩
+  | .text _, .text _, h => by simp only [Tree.sim] at h ⊢; exact h.symm
+  | .comment _, .comment _, h => by simp only [Tree.sim] at h ⊢; exact h.symm
+  | .elem _ _ _, .text _, h => by simp [Tree.sim] at h
+  | .elem _ _ _, .comment _, h => by simp [Tree.sim] at h
+  | .text _, .elem _ _ _, h => by simp [Tree.sim] at h
+  | .text _, .comment _, h => by simp [Tree.sim] at h
+  | .comment _, .elem _ _ _, h => by simp [Tree.sim] at h
+  | .comment _, .text _, h => by simp [Tree.sim] at h
+theorem Tree.simList.symm (hR : ∀ x y, R x y → R y x) :
+    ∀ (a b : List Tree), Tree.simList R a b → Tree.simList R b a
+  | [], [], _ => by simp [Tree.simList]
+  | [], _ :: _, h => by simp [Tree.simList] at h
+  | _ :: _, [], h => by simp [Tree.simList] at h
+  | a :: as, b :: bs, h => by
+    simp only [Tree.simList] at h ⊢
+    exact ⟨Tree.sim.symm hR a b h.1, Tree.simList.symm hR as bs h.2⟩
+end
+
+mutual
+theorem Tree.sim.trans (hR : ∀ x y z, R x y → R y z → R x z) :
+    ∀ (a b c : Tree), Tree.sim R a b → Tree.sim R b c → Tree.sim R a c
+  | .elem _ _ k1, .elem _ _ k2, .elem _ _ k3, h1, h2 => by
+    simp only [Tree.sim] at h1 h2 ⊢
+    exact ⟨h1.1.trans h2.1, hR _ _ _ h1.2.1 h2.2.1, Tree.simList.trans hR k1 k2 k3 h1.2.2 h2.2.2⟩
+  | .text _, .text _, .text _, h1, h2 => by simp only [Tree.sim] at h1 h2 ⊢; exact h1.trans h2
+  | .comment _, .comment _, .comment _, h1, h2 => by
+    simp only [Tree.sim] at h1 h2 ⊢; exact h1.trans h2
+  | .elem _ _ _, .text _, _, h, _ => by simp [Tree.sim] at h
+  | .elem _ _ _, .comment _, _, h, _ => by simp [Tree.sim] at h
+  | .text _, .elem _ _ _, _, h, _ => by simp [Tree.sim] at h
+  | .text _, .comment _, _, h, _ => by simp [Tree.sim] at h
+  | .comment _, .elem _ _ _, _, h, _ => by simp [Tree.sim] at h
+  | .comment _, .text _, _, h, _ => by simp [Tree.sim] at h
+  | .elem _ _ _, .elem _ _ _, .text _, _, h => by simp [Tree.sim] at h
+  | .elem _ _ _, .elem _ _ _, .comment _, _, h => by simp [Tree.sim] at h
+  | .text _, .text _, .elem _ _ _, _, h => by simp [Tree.sim] at h
+  | .text _, .text _, .comment _, _, h => by simp [Tree.sim] at h
+  | .comment _, .comment _, .elem _ _ _, _, h => by simp [Tree.sim] at h
+  | .comment _, .comment _, .text _, _, h => by simp [Tree.sim] at h
+theorem Tree.simList.trans (hR : ∀ x y z, R x y → R y z → R x z) :
+    ∀ (a b c : List Tree), Tree.simList R a b → Tree.simList R b c → Tree.simList R a c
+  | [], [], [], _, _ => by simp [Tree.simList]
+  | [], _ :: _, _, h, _ => by simp [Tree.simList] at h
+  | _ :: _, [], _, h, _ => by simp [Tree.simList] at h
+  | [], [], _ :: _, _, h => by simp [Tree.simList] at h
+  | _ :: _, _ :: _, [], _, h => by simp [Tree.simList] at h
+  | a :: as, b :: bs, c :: cs, h1, h2 => by
+    simp only [Tree.simList] at h1 h2 ⊢
+    exact ⟨Tree.sim.trans hR a b c h1.1 h2.1, Tree.simList.trans hR as bs cs h1.2 h2.2⟩
+end
+
 end Leptos.View
